@@ -222,7 +222,7 @@ pub fn run(ctx: &Ctx) {
     let o = crate::bfs::explore(&m, max_len + 1, |s| s.bad.clone(), 8);
     crate::bfs::finish(ctx, "batch.machine", &o, max_len + 1);
     // ---- large batches around the Straus/Pippenger switch (2n+1 >= 190  <=>  n >= 95)
-    let sizes: Vec<usize> = if quick { vec![94, 95] } else { vec![64, 94, 95, 96, 250] };
+    let sizes: Vec<usize> = if quick { vec![94, 95, 250, 400] } else { vec![64, 94, 95, 96, 249, 250, 251, 399, 400, 401, 600] };
     ctx.bound("large_batch_sizes", json!(sizes));
     let jobs: Vec<(usize, Option<(usize, u8)>)> = {
         let mut v = Vec::new();
